@@ -127,6 +127,36 @@ def skel_terms(tier: str):
     return out
 
 
+# ---------------------------------------------------------------- PARAM
+PARAM_NS = list(range(1, 34)) + [45, 64, 81, 100, 101, 255]
+PARAM_BASES = [1e-3, 0.1, 0.25, 0.3, 0.5, 0.9, 1, 1.5, 2, math.e, 3, 7, 10, 16, 100, 1e3, M.DEFAULT_BASE]
+
+
+def param_terms(tier: str):
+    """Every parameter value of a wide range under a few fixed operands: every n in 1..33 (and some larger),
+    17 bases from 1e-3 to 1e3, so that parameter-specific branches of the numeric kernels, the derivative rules
+    and the rewrite rules are all reached."""
+    out = []
+    operands = [x, Neg(x), Add(x, C(1))] + ([Mul(x, y), Recip(x)] if tier == "thorough" else [])
+    for u in operands:
+        for n in PARAM_NS:
+            out.append(Root(u, n))
+            out.append(NPow(u, n))
+        for b in PARAM_BASES:
+            out.append(Exp(u, b))
+            if b != 1:
+                out.append(Log(u, b))
+    small = (2, 3, 5, 9) if tier != "thorough" else (2, 3, 4, 5, 6, 9, 15)
+    for n in small:
+        for m in small:
+            out.append(Root(Root(x, n), m))
+            out.append(Root(NPow(x, n), m))
+            out.append(NPow(Root(x, n), m))
+            out.append(Mul(Root(x, n), Root(y, m)))
+            out.append(Mul(NPow(x, n), NPow(y, m)))
+    return out
+
+
 # ---------------------------------------------------------------- NARY
 FACTOR_KINDS = [
     C(0), C(1), C(2), C(-1), x, Neg(x), Recip(y), NPow(x, 2), NPow(y, 2), Root(x, 2), Root(y, 2),
@@ -147,6 +177,17 @@ def nary_terms(tier: str):
         for combo in itertools.product(pools[arity], repeat=arity):
             out.append(("add", combo))
             out.append(("mul", combo))
+    # arity 5 and 6 (every position distinguishable)
+    big = [x, C(2), y, Neg(x), C(-1), Recip(y), C(3), NPow(x, 2)]
+    for arity in (5, 6):
+        for start in range(len(big)):
+            combo = tuple(big[(start + i * (1 + start % 3)) % len(big)] for i in range(arity))
+            out.append(("add", combo))
+            out.append(("mul", combo))
+        out.append(("add", tuple(C(2 ** i) for i in range(arity))))
+        out.append(("mul", tuple(C(i + 2) for i in range(arity))))
+        out.append(("add", tuple([x] * arity)))
+        out.append(("mul", tuple([x] * arity)))
     # 0-/1-/4-ary sums and products inside other nodes
     inner = [Add(), Mul(), Add(x), Mul(x), Add(x, y, C(1), x), Mul(x, y, C(2), x), Add(C(1), C(2), C(3), C(4)),
              Mul(C(1), C(2), C(3), C(4)), Mul(x, C(0), y, Recip(x))]
